@@ -154,6 +154,50 @@ theorem escapeText_eq_nil {t : Bytes} : escapeText t = [] ↔ t = [] := by
       exact absurd (List.append_eq_nil_iff.mp h).1 (escapeTextByte_ne_nil c)
   · intro h; subst h; rfl
 
+/-! ### line ends: what the serialiser writes as text holds no literal CR, so `Deserializer::text` leaves it alone -/
+
+theorem contains_cr_false {x : Bytes} (h : ∀ c ∈ x, c ≠ 13) : x.contains 13 = false := by
+  cases hc : x.contains 13 with
+  | false => rfl
+  | true => exact absurd rfl (h 13 (List.contains_iff_mem.mp hc))
+
+theorem normLineEnds_of_noCr {x : Bytes} (h : ∀ c ∈ x, c ≠ 13) : normLineEnds x = x := by
+  simp only [normLineEnds, contains_cr_false h, Bool.false_eq_true, if_false]
+
+theorem normText_of_noCr {x : Bytes} (h : ∀ c ∈ x, c ≠ 13) : normText x = x := by
+  simp only [normText, contains_cr_false h, Bool.false_eq_true, if_false]
+
+theorem escapeByte_noCr (c : UInt8) (hc : c ≠ 13) : ∀ x ∈ escapeByte c, x ≠ 13 := by
+  intro x hx
+  unfold escapeByte at hx
+  split at hx
+  · revert x; decide
+  split at hx
+  · revert x; decide
+  split at hx
+  · revert x; decide
+  split at hx
+  · revert x; decide
+  split at hx
+  · revert x; decide
+  · simp only [List.mem_singleton] at hx; subst hx; exact hc
+
+theorem escapeTextByte_noCr (c : UInt8) : ∀ x ∈ escapeTextByte c, x ≠ 13 := by
+  by_cases hcr : c = 13
+  · subst hcr; decide
+  · cases hs : isSpecial c with
+    | false => rw [escapeTextByte_plain hs hcr]; intro x hx; simp only [List.mem_singleton] at hx; subst hx; exact hcr
+    | true => rw [escapeTextByte_special hs]; exact escapeByte_noCr c hcr
+
+/-- `xml/ser.rs::text` writes no literal carriage return (every CR goes out as `&#13;`) -/
+theorem escapeText_noCr : ∀ (t : Bytes), ∀ x ∈ escapeText t, x ≠ 13
+  | [], x, hx => by simp [escapeText_nil] at hx
+  | c :: cs, x, hx => by
+    rw [escapeText_cons, List.mem_append] at hx
+    rcases hx with hx | hx
+    · exact escapeTextByte_noCr c x hx
+    · exact escapeText_noCr cs x hx
+
 /-! ### integers -/
 
 theorem isDigit_not_special {c : UInt8} (h : isDigit c = true) : isSpecial c = false := by
